@@ -3,6 +3,7 @@
 package logqlengine
 
 import (
+	"regexp"
 	"time"
 
 	"go.opentelemetry.io/collector/pdata/pcommon"
@@ -332,4 +333,30 @@ func VerifHarness_C18_MetricMapOrder() {
 	}
 	vsymAssert(v1 == v2 && c1 == c2, "[maporder] repeating the evaluation gives the same value and the same series")
 	vsymReach("C18_metric_map_order")
+}
+
+
+// C10-O7: the key follows the label set through an in-place replacement
+// (label_replace machinery): after Replace rewrote the value of an existing
+// label, Key() is the key of a freshly built set with the new value, also when
+// Key() had been asked for before the replacement.
+func VerifHarness_C10_KeyAfterReplace() {
+	pool := []string{"x-1", "x-2", "y", ""}
+	va := pool[vsymChoice("valA", len(pool))]
+	vb := pool[vsymChoice("valB", len(pool))]
+	agg := newAggregatedLabels(verifLabelSet([]string{"a", "b"}, []string{va, vb}), nil, nil)
+	if vsymBool("keyAskedBefore") {
+		_ = agg.Key()
+	}
+	re := regexp.MustCompile(`^(?:(.*)-\d)$`)
+	out := agg.Replace("a", "$1", "a", re)
+	want := va
+	if m := re.FindStringSubmatch(va); m != nil {
+		want = m[1]
+	}
+	fresh := newAggregatedLabels(verifLabelSet([]string{"a", "b"}, []string{want, vb}), nil, nil)
+	api := out.AsLokiAPI()
+	vsymAssert(api["a"] == want && api["b"] == vb && len(api) == 2, "the replacement rewrites exactly the destination label")
+	vsymAssert(out.Key() == fresh.Key(), "equal label sets share a key: the key of a set whose label was rewritten in place is the key of the same set built afresh")
+	vsymReach("C10_key_after_replace")
 }
